@@ -15,6 +15,18 @@ import shutil
 from . import tlc
 
 
+def _run_tlc(module, cfg, wd, env, timeout):
+    """one TLC process; a process that vanished without reporting anything (killed from outside, e.g. by
+    the OOM killer on a crowded machine) is started once more - a reported error never is"""
+    for attempt in (1, 2):
+        res = tlc.run(module, cfg, wd=wd, workers=1, env=env, timeout=timeout)
+        out = res["out"]
+        if "DONE " in out or "Error:" in out or "error" in out.lower() or res["rc"] == 124 or attempt == 2:
+            return res
+        shutil.rmtree(os.path.join(wd, "states"), ignore_errors=True)
+    return res
+
+
 def _oracle_batch(args):
     module, consts, cases, idx, timeout = args
     wd = tlc.workdir("orc")
@@ -24,7 +36,7 @@ def _oracle_batch(args):
         with open(path, "w") as f:
             json.dump({"cases": cases}, f)
         cfg = tlc.cfg_text(consts, init="TInit", next_="TNext")
-        res = tlc.run(module, cfg, wd=wd, workers=1, env={"TRACE_FILE": path, "OUT_FILE": outp}, timeout=timeout)
+        res = _run_tlc(module, cfg, wd, {"TRACE_FILE": path, "OUT_FILE": outp}, timeout)
         rj, done = [], None
         for s in tlc.printed_strings(res["out"]):
             if s.startswith("RJ "):
@@ -71,7 +83,7 @@ def _trace_batch(args):
         with open(path, "w") as f:
             json.dump({"traces": traces}, f)
         cfg = tlc.cfg_text(consts, init="TInit", next_="TNext")
-        res = tlc.run(module, cfg, wd=wd, workers=1, env={"TRACE_FILE": path}, timeout=timeout)
+        res = _run_tlc(module, cfg, wd, {"TRACE_FILE": path}, timeout)
         rj, done = [], None
         for s in tlc.printed_strings(res["out"]):
             if s.startswith("RJ "):
